@@ -46,13 +46,29 @@ def block_configs(tier):
     return out
 
 
-def make_block(cfg):
+def make_block(cfg, twins=1):
+    """-> (block, model) or, with twins=2, (block, twin, model): both built from the one container the caller holds,
+    which the caller goes on using for its own purposes afterwards (a block owns its cells)"""
     kind, start, vals = cfg
     if kind == 'seq':
-        return ModbusSequentialDataBlock(start, list(vals)), dict((start + i, v) for i, v in enumerate(vals))
-    if kind == 'sparse-list':
-        return ModbusSparseDataBlock(list(vals)), dict(enumerate(vals))
-    return ModbusSparseDataBlock(dict(vals)), dict(vals)
+        tpl = list(vals)
+        out = [ModbusSequentialDataBlock(start, tpl) for _ in range(twins)]
+        model = dict((start + i, v) for i, v in enumerate(vals))
+    elif kind == 'sparse-list':
+        tpl = list(vals)
+        out = [ModbusSparseDataBlock(tpl) for _ in range(twins)]
+        model = dict(enumerate(vals))
+    else:
+        tpl = dict(vals)
+        out = [ModbusSparseDataBlock(tpl) for _ in range(twins)]
+        model = dict(vals)
+    if isinstance(tpl, list):
+        tpl[0] = 0xEEEE
+        tpl.append(0xEEEE)
+    else:
+        tpl[min(tpl)] = 0xEEEE
+        tpl[max(tpl) + 1] = 0xEEEE
+    return tuple(out) + (model,)
 
 
 def bkey(b):
@@ -69,7 +85,7 @@ def block_name(cfg, model0):
 
 
 def explore_block(acc, cfg, depth, coarse=False):
-    blk, model0 = make_block(cfg)
+    blk, twin, model0 = make_block(cfg, twins=2)
     lo, hi = min(model0), max(model0)
     n = len(model0)
     addrs = [a for a in range(lo - 2, hi + 3) if 0 <= a <= 65537]
@@ -90,7 +106,7 @@ def explore_block(acc, cfg, depth, coarse=False):
     reps = {}
     k0 = (bkey(blk), tuple(sorted(model0.items())))
     reps[k0] = blk
-    twin, twin_model = make_block(cfg)        # never operated on: must stay as built whatever happens to the others
+    # the twin is never operated on: it must stay as built whatever happens to the others
     twin_key = bkey(twin)
 
     def bclass(a, c):
@@ -214,9 +230,11 @@ def explore_block(acc, cfg, depth, coarse=False):
 
 
 # ---------------------------------------------------------------- slave context
-def explore_slave(acc, zero_mode, shared, global_default=False, explicit=True):
+def explore_slave(acc, zero_mode, shared, global_default=False, explicit=True, switched=False):
     """global_default: the process-wide Defaults.ZeroMode while the context is built; explicit: zero_mode is passed to the
-    constructor (and wins), otherwise the context takes the process-wide default (zero_mode is then that default)"""
+    constructor (and wins), otherwise the context takes the process-wide default (zero_mode is then that default);
+    switched: the context is built with the opposite setting, serves every function code once, and then has its public
+    zero_mode attribute set to `zero_mode` (an application reconfiguring a live context)"""
     from pymodbus.constants import Defaults
 
     def blocks():
@@ -228,6 +246,8 @@ def explore_slave(acc, zero_mode, shared, global_default=False, explicit=True):
     cfgname = 'slave/zero=%s/shared=%s' % (zero_mode, shared)
     if global_default or not explicit:
         cfgname += '/default=%s/%s' % (global_default, 'explicit' if explicit else 'implicit')
+    if switched:
+        cfgname += '/switched'
     off = 0 if zero_mode else 1
     starts = {'d': 1, 'c': 2 if not shared else 1, 'h': 1, 'i': 3 if not shared else 1}
     tabval = {'d': 1, 'c': 2 if not shared else 1, 'h': 3, 'i': 4 if not shared else 3}
@@ -237,7 +257,13 @@ def explore_slave(acc, zero_mode, shared, global_default=False, explicit=True):
         saved = Defaults.ZeroMode
         Defaults.ZeroMode = global_default
         try:
-            if explicit:
+            if switched:
+                ctx = ModbusSlaveContext(di=di, co=co, hr=hr, ir=ir, zero_mode=not zero_mode)
+                for fy in FCS:
+                    ctx.validate(fy, 2, 1)
+                    ctx.getValues(fy, 2, 1)
+                ctx.zero_mode = zero_mode
+            elif explicit:
                 ctx = ModbusSlaveContext(di=di, co=co, hr=hr, ir=ir, zero_mode=zero_mode)
             else:
                 ctx = ModbusSlaveContext(di=di, co=co, hr=hr, ir=ir)
@@ -547,6 +573,7 @@ def run(tier, seed):
     # ... built while the process-wide default Defaults.ZeroMode is on (an explicit argument wins), and without the
     # argument (the context takes the default)
     shards += [('slave', z, False, True, True) for z in (False, True)] + [('slave', g, False, g, False) for g in (False, True)]
+    shards += [('slave', z, False, False, True, True) for z in (False, True)]
     shards += [('factories',)]
     sdepth = 3 if tier == 'quick' else 4
     shards += [('server', True, (), sdepth)] + [('server', False, ids, sdepth) for ids in ((), 'no-arg', (1,), (1, 2), (0, 247))]
@@ -585,6 +612,7 @@ def replay(w):
                 explore_slave(acc, z, s)
             explore_slave(acc, z, False, True, True)
             explore_slave(acc, z, False, z, False)
+            explore_slave(acc, z, False, False, True, True)
         vs = [v for v in acc.violations if v['witness'] == w]
     else:
         single = 'single=True' in w['ctx']
